@@ -15,7 +15,10 @@ from ..core import Engine, RunResult
 from .. import docgen
 
 CONFIG_KINDS = {"construct", "enable", "disable", "opt_item", "opt_attr", "set", "configure", "render_rule", "use",
-                "bad_config", "ruler"}
+                "bad_config", "ruler", "set_from", "construct_from"}
+# ops whose effect on instance j depends on the configuration of ANOTHER instance at that moment; the expectation
+# world then replays the configuration ops of every instance (never the parses)
+CROSS_CONFIG_KINDS = {"set_from", "construct_from"}
 STATEFUL_DOCS = [
     "[x]\n\n[x]: /first 'T'\n", "[x]: /second\n\n[x] [y]\n\n[y]: /why\n", "`` a ` b ``` c `` d ```\n", "``` `` ` x\n",
     "> " * 30 + "deep\n", "- " * 25 + "deep\n", "*" * 40 + "a" + "*" * 37 + "\n", "[" * 30 + "a" + "]" * 30 + "(/u)\n",
@@ -134,6 +137,8 @@ def gen(rng: random.Random, tier: str) -> dict:
                     d = d + "\n\n[foo]: /hist-foo\n[bar]: /hist-bar\n[A B]: /hist-ab\n"
             em = rng.choice(["omit", "fresh", "fresh"] + ([["shared", rng.randrange(n_env)]] * 2 if n_env else []))
             ops.append(["call", j, m, d, em])
+            if rng.random() < 0.12:
+                ops.append(["mutate", j, rng.randrange(4)])
         elif r < 0.55:
             ops.append([rng.choice(["enable", "disable"]), j, rng.sample(RULE_POOL, rng.randint(1, 3))])
         elif r < 0.62:
@@ -159,9 +164,20 @@ def gen(rng: random.Random, tier: str) -> dict:
             ops.append(["use", j, f"p{pid}", rng.choice(["inline", "core", "block"])])
         elif r < 0.93:
             ops.append(["construct", j, _gen_preset_ref(rng, n_user), _gen_options(rng) if rng.random() < 0.6 else None])
-        elif r < 0.96:
+        elif r < 0.95:
             ops.append(["ruler", j, rng.choice(["block", "inline"]), rng.choice(["enable", "disable"]),
                         [rng.choice(docgen.BLOCK_OPTIONAL)]])
+        elif r < 0.965 and n_inst > 1:
+            # hand one instance's live options object to another instance (set / constructor): they must not alias
+            i = rng.choice([x for x in range(n_inst) if x != j])
+            if rng.random() < 0.6:
+                ops.append(["set_from", j, i])
+            else:
+                ops.append(["construct_from", j, _gen_preset_ref(rng, n_user), i])
+        elif r < 0.985:
+            # the caller scribbles over what an earlier call returned (tokens, their attrs/meta/map/children, the env):
+            # results belong to the caller, so this must not reach any later call
+            ops.append(["mutate", j, rng.randrange(4)])
         else:
             ops.append(["bad", j, rng.choice(["src_int", "src_none", "env_list", "env_str", "preset", "rule", "empty_cfg",
                                               "inline_src_bytes"])])
@@ -198,6 +214,7 @@ class _World:
         self.user_presets = copy.deepcopy(rec["user_presets"])
         self.user_options = copy.deepcopy(rec["user_options"])
         self.inst: dict[int, object] = {}
+        self.last: dict[int, tuple] = {}      # instance -> (value, env) of its most recent successful call
         mk = collections.UserDict if rec.get("env_type") == "userdict" else dict
         self.envs = [mk() for _ in range(rec["n_env"])]
 
@@ -222,8 +239,13 @@ class _World:
                     upd = {"linkify": False}
                 self.inst[j] = MarkdownIt(p, upd)
                 return None
+            if kind == "construct_from":
+                self.inst[j] = MarkdownIt(self.preset(op[2]), self.inst[op[3]].options)
+                return None
             md = self.inst[j]
-            if kind in ("enable", "disable"):
+            if kind == "set_from":
+                md.set(self.inst[op[2]].options)
+            elif kind in ("enable", "disable"):
                 getattr(md, kind)(list(op[2]))
             elif kind == "opt_item":
                 md.options[op[2]] = op[3]
@@ -272,6 +294,50 @@ class _World:
         return "no-exception"
 
 
+def _scribble(value, env, mode: int) -> int:
+    """The caller's own mutations of what a call returned. Returns the number of objects touched."""
+    n = 0
+    if isinstance(value, list):
+        stack = list(value)
+        while stack:
+            t = stack.pop()
+            n += 1
+            if mode in (0, 3):
+                t.attrs["data-verif"] = "scribble"
+                t.meta["verif"] = ["scribble"]
+                t.content = t.content + "SCRIBBLE"
+                t.info = "scribble"
+                t.markup = "!!"
+            if mode in (1, 3) and t.map is not None:
+                t.map[:] = [97, 98, 99]
+            if t.children:
+                stack.extend(t.children)
+                if mode in (2, 3):
+                    t.children.reverse()
+                    del t.children[1:]
+        if mode in (2, 3):
+            value.clear()
+    if env is not None:
+        try:
+            refs = env.get("references")
+            if isinstance(refs, dict):
+                for v in refs.values():
+                    if isinstance(v, dict):
+                        v["href"] = "/scribble"
+                        v["title"] = "scribble"
+                        if isinstance(v.get("map"), list):
+                            v["map"][:] = [97, 98]
+                        n += 1
+                if mode in (2, 3):
+                    refs["SCRIBBLE"] = {"href": "/scribbled-in", "title": "", "map": [0, 1]}
+            dups = env.get("duplicate_refs")
+            if isinstance(dups, list) and mode in (1, 3):
+                dups.clear()
+        except Exception:  # noqa: BLE001 - a caller-owned env of unexpected shape is not the harness's business
+            pass
+    return n
+
+
 def _snap(md):
     return (md.get_active_rules(), dict(md.options),
             {k: getattr(v, "__func__", v) for k, v in md.renderer.rules.items()})
@@ -281,11 +347,13 @@ def _env_plain(env):
     return None if env is None else {str(k): v for k, v in dict(env).items()}
 
 
-def _call(md, method, doc, env):
+def _call(md, method, doc, env, keep: list | None = None):
     try:
         v = getattr(md, method)(doc) if env is None else getattr(md, method)(doc, env)
     except Exception as e:  # noqa: BLE001
         return ["exc", type(e).__name__, str(e)[:200]]
+    if keep is not None:
+        keep.append(v)
     if method in ("parse", "parseInline"):
         v = [t.as_dict() for t in v]
     return ["ok", v]
@@ -316,8 +384,9 @@ def expected_for(rec, order):
     for pi in order:
         j, method, doc, envmode = rec["probes"][pi]
         w = _World(rec, pristine=True)
+        cross = any(op[0] in CROSS_CONFIG_KINDS for op in rec["ops"])
         for op in rec["ops"]:
-            if op[1] == j and op[0] in CONFIG_KINDS:
+            if (cross or op[1] == j) and op[0] in CONFIG_KINDS:
                 w.config_op(op)
         env = {}
         out = _call(w.inst[j], method, doc, env)
@@ -362,7 +431,16 @@ def execute(rec: dict, res: RunResult) -> None:
                     res.count("shared_user_preset")
             elif kind == "render_rule":
                 res.count("render_rule_added")
+            elif kind in CROSS_CONFIG_KINDS and e is None:
+                res.count("options_object_handed_to_other_instance")
             touched = {j}
+        elif kind == "mutate":
+            last = w.last.get(j)
+            n = _scribble(last[0], last[1], op[2]) if last else 0
+            res.events.append([k, "mutate", j, op[2], n])
+            if n:
+                res.count("caller_mutated_returned_objects")
+            touched = set()
         elif kind == "bad":
             r = w.bad(op)
             res.events.append([k, "bad", op[2], r])
@@ -374,7 +452,10 @@ def execute(rec: dict, res: RunResult) -> None:
         else:
             _, _, method, doc, em = op
             env = None if em == "omit" else ({} if em == "fresh" else w.envs[em[1]])
-            out = _call(w.inst[j], method, doc, env)
+            keep: list = []
+            out = _call(w.inst[j], method, doc, env, keep)
+            if keep:
+                w.last[j] = (keep[0], env)
             res.events.append([k, "call", j, method, out])
             state_bearing += 1
             if "]:" in doc:
@@ -428,7 +509,8 @@ class C12(Engine):
     level = "exploration"
     rule = ("seeded histories of 2-16 API calls (construct by preset name / module dict / shared user dict, parse/render/"
             "parseInline/renderInline with env omitted, fresh or shared, enable/disable, options by 3 routes, set, "
-            "configure, add_render_rule, use(plugin), documented failing calls) on 1-3 live instances, then 1-4 probes "
+            "configure, add_render_rule, use(plugin), one instance's options object handed to another, the caller scribbling "
+            "over returned tokens/env, documented failing calls) on 1-3 live instances, then 1-4 probes "
             "whose expected values were computed before the history on fresh instances. Non-trivial = at least one "
             "parse/render call in the history and a probe with non-empty output; distinct = distinct event-log digests.")
     assumptions = ["linkify stays off (linkify-it-py is not installed)",
@@ -440,7 +522,8 @@ class C12(Engine):
                   "stub": [], "simulated": ["the history of calls on several live instances, incl. documented failing calls"]}
     expected_probes = ["ref_use_in_probe_without_env", "other_instance_reconfigured", "shared_user_preset",
                        "option_route_ctor", "option_route_item", "option_route_attr", "failed_documented_call",
-                       "render_rule_added", "definitions_parsed_in_history"]
+                       "render_rule_added", "definitions_parsed_in_history", "caller_mutated_returned_objects",
+                       "options_object_handed_to_other_instance"]
 
     def budget(self, tier):
         if tier == "quick":
@@ -495,7 +578,11 @@ def _valid(ops, probes):
     for op in ops:
         if op[0] == "construct":
             built.add(op[1])
-        elif op[1] not in built:
+        elif op[0] == "construct_from":
+            if op[3] not in built:
+                return False
+            built.add(op[1])
+        elif op[1] not in built or (op[0] == "set_from" and op[2] not in built):
             return False
     return all(p[0] in built for p in probes)
 
